@@ -277,6 +277,7 @@ def judgeAccepted (env : Env) (s : State) (c : Call) (r : Response) (s' : State)
     let exact := match Dec.parse price, bidRate s.info with
       | some p, some rate => exactMul p size && exactMul rate qs
       | _, _ => false
+    let v := if exact then v.check "C09" "C09_entryOK" (C09_entryOK s fee price quote qs size) else v
     if exact then v.check "C07" "C07_bidOK" (C07_bidOK env s c id base fee price quote qs size r s')
     else v.check "C07" "C07_bidOK_inexact" (C07_bidOK env s c id base fee price quote qs size r s')
   | .approveAsk id base size =>
@@ -435,6 +436,7 @@ def judge (d : DState) : Verdict × DState :=
           let v := ds.foldl (fun (v : Verdict) (d : String) =>
             v.check "C01" "C01_migrate_owed" (owedAny s' d == owedAny s d)) v
           let v := v.check "C01" "C01_migrate_nomsgs" implResp.msgs.isEmpty
+          let v := v.check "C09" "C09_migrateFeeOK" (C09_migrateFeeOK s s')
           if d.lastMig == some m then v.check "C14" "C14_idempotent" (stateEq s s') else v
         else v.check "C14" "C14_gate" true
       let v := if !implOk && !p.deltas.isEmpty then v.check "C14" "refused_changes_nothing" false else v
